@@ -222,6 +222,56 @@ def Acct.locked : Acct → Int → Coins
   | .periodic a, t => KV.Vest.locked a t
   | _, _ => fun _ => 0
 
+/-! ## The keeper's own context after the call (no transaction rollback)
+
+`sendTimeLocked` above answers `.err` without a post-state: a failed message is rolled back by baseapp.
+The property, however, says that an over-balance payout is "refused without moving funds", which is a
+statement about what the keeper call itself leaves behind.  The functions below return the world the
+keeper's own context holds after the call together with the success flag.  The bank is modelled as it
+is written: `SendCoins` = `subUnlockedCoins` (sender, coin by coin in denom order, every new balance is
+stored before the next coin is looked at; the first uncovered coin aborts with `ErrInsufficientFunds` and
+the earlier debits stay) followed by `addCoins` (recipient).  Consequently "a refusal moves nothing" is
+a theorem about the *up-front guard over all denoms* of `SendTimeLockedCoinsToAccount`, not about the bank. -/
+
+/-- `setBalance(addr, denom d := v)` -/
+def Coins.set (c : Coins) (d : Denom) (v : Int) : Coins := fun e => if e = d then v else c e
+
+/-- x/bank `subUnlockedCoins` on the sending module account (it has no locked coins): the loop over the
+    denoms `d, d+1, …, d+n-1` of `amt` (an absent denom is amount 0: debiting 0 changes nothing).
+    Result: the balances left in the context and whether the loop ran to its end. -/
+def subUnlockedFrom (amt : Coins) : Denom → Nat → Coins → Coins × Bool
+  | _, 0, bal => (bal, true)
+  | d, n + 1, bal =>
+    if bal d < amt d then (bal, false)                                    -- ErrInsufficientFunds, earlier writes stay
+    else subUnlockedFrom amt (d + 1) n (bal.set d (bal d - amt d))
+
+/-- `bankKeeper.SendCoinsFromModuleToAccount` as the keeper's context sees it: blocked recipients are
+    refused before anything is touched; otherwise the sender is debited coin by coin and only after the
+    whole debit succeeded the recipient is credited. -/
+def bankSendK (w : World) (amt : Coins) : World × Bool :=
+  if w.blocked then (w, false)
+  else
+    let r := subUnlockedFrom amt 0 ND w.modBal
+    if r.2 then ({ w with modBal := r.1, bal := Coins.add w.bal amt }, true)
+    else ({ w with modBal := r.1 }, false)
+
+/-- `SendTimeLockedCoinsToAccount` in the code's order, returning the keeper's own context after the call
+    (first component) and whether it returned `nil` (second component) -/
+def sendTimeLockedK (now : Int) (w : World) (amt : Coins) (length : Int) : World × Bool :=
+  if !isAllGTE w.modBal amt then (w, false)            -- ErrInsufficientModAccountBalance, nothing touched yet
+  else if w.acct.isNone then (w, false)                 -- ErrAccountNotFound
+  else if length = 0 then bankSendK w amt
+  else match w.acct with
+    | .continuous => (w, false)                         -- ErrInvalidAccountType
+    | .module => (w, false)
+    | .periodic a =>
+      let r := bankSendK w amt
+      if r.2 then ({ r.1 with acct := .periodic (addCoins now a amt length) }, true) else r
+    | .base =>
+      let r := bankSendK w amt
+      if r.2 then ({ r.1 with acct := .periodic (newPVA now amt length) }, true) else r
+    | _ => (w, false)                                   -- default: ErrInvalidAccountType
+
 /-! ## Civil calendar (proleptic Gregorian, UTC) and GetPeriodLength -/
 
 namespace Cal
